@@ -84,6 +84,7 @@ type Setup struct {
 	NotFoundTwice bool         // NotFound() is called with a throw-away handler first
 	SubgroupFirst bool         // inside a group, the nested group is registered before the group's own routes
 	EnvLate       bool         // the environment is switched to Env only after set-up (middleware constructed under another one)
+	BogusEnv      bool         // after the environment is set, SetEnv is called once more with an invalid value (which must be ignored)
 	Routes        []*RouteSpec // flattened, in registration order
 }
 
@@ -219,6 +220,7 @@ func GenSetup(g *tape.Stream, p *Profile) *Setup {
 	defer g.End()
 	s.Env = p.Envs[g.Intn(len(p.Envs))]
 	s.EnvLate = g.Chance(p.EnvLatePm)
+	s.BogusEnv = g.Chance(p.EnvLatePm)
 	s.Wrapper = g.Chance(p.WrapperPm)
 	s.ViaHandlers = g.Chance(p.RegVariantsPm)
 	s.NotFoundTwice = g.Chance(p.RegVariantsPm)
